@@ -54,6 +54,22 @@ func (f *Func) nonNilError(v ssa.Value, b *ssa.BasicBlock, depth int) (nonNil bo
 			_ = g
 			return true, false
 		}
+		// load of a local (named result spilled because of defer/recover or a closure): look through the
+		// stores that reach the load
+		if a, ok := x.X.(*ssa.Alloc); ok {
+			f.Org.build()
+			defs, entry := f.Org.reachingDefs(a, -1, x)
+			if len(defs) == 0 || len(defs) > 8 {
+				return false, entry && len(defs) == 0
+			}
+			allNonNil, allNil := !entry, true
+			for _, st := range defs {
+				nn, n := f.nonNilError(st.Val, b, depth+1)
+				allNonNil = allNonNil && nn
+				allNil = allNil && n
+			}
+			return allNonNil, allNil
+		}
 	case *ssa.Call:
 		if callee := x.Common().StaticCallee(); callee != nil {
 			pk := ""
@@ -84,7 +100,7 @@ func (f *Func) nonNilError(v ssa.Value, b *ssa.BasicBlock, depth int) (nonNil bo
 		if bo, ok := g.Cond.(*ssa.BinOp); ok {
 			isNilCmp := func(a, c ssa.Value) bool {
 				k, ok := c.(*ssa.Const)
-				return ok && k.IsNil() && a == v
+				return ok && k.IsNil() && f.sameValue(a, v)
 			}
 			if isNilCmp(bo.X, bo.Y) || isNilCmp(bo.Y, bo.X) {
 				if (bo.Op.String() == "!=" && g.Polarity) || (bo.Op.String() == "==" && !g.Polarity) {
@@ -139,6 +155,28 @@ func (f *Func) ExitKindOf(b *ssa.BasicBlock) ExitKind {
 func (f *Func) exitKindOf(b *ssa.BasicBlock) ExitKind {
 	if len(b.Instrs) == 0 {
 		return NotExit
+	}
+	// the recover block: reached only after a deferred handler recovered a panic. If a deferred closure of the
+	// function assigns the error result, that exit reports the panic as an error.
+	if b == f.Fn.Recover {
+		if _, ok := b.Instrs[len(b.Instrs)-1].(*ssa.Return); ok {
+			for _, an := range f.Fn.AnonFuncs {
+				for _, ab := range an.Blocks {
+					for _, ins := range ab.Instrs {
+						if st, ok := ins.(*ssa.Store); ok {
+							if fv, ok := st.Addr.(*ssa.FreeVar); ok {
+								if p, ok := fv.Type().(*types.Pointer); ok && isErrorType(p.Elem()) {
+									if nn, _ := NewFunc(an).nonNilError(st.Val, ab, 2); nn {
+										return ErrorExit
+									}
+								}
+							}
+						}
+					}
+				}
+			}
+			return MaybeExit
+		}
 	}
 	switch x := b.Instrs[len(b.Instrs)-1].(type) {
 	case *ssa.Panic:
@@ -373,4 +411,22 @@ func NameMatch(want, have string) bool {
 		return strings.HasSuffix(have, want[1:])
 	}
 	return false
+}
+
+// sameValue: a denotes the value v: identical, or a load of a local whose only reaching definition stores v.
+func (f *Func) sameValue(a, v ssa.Value) bool {
+	if a == v {
+		return true
+	}
+	ld, ok := a.(*ssa.UnOp)
+	if !ok {
+		return false
+	}
+	al, ok := ld.X.(*ssa.Alloc)
+	if !ok {
+		return false
+	}
+	f.Org.build()
+	defs, entry := f.Org.reachingDefs(al, -1, ld)
+	return !entry && len(defs) == 1 && defs[0].Val == v
 }
